@@ -114,6 +114,10 @@ def main():
         while len(g) < 2 * n + ck.rng.randint(1, 3):
             g.append(G.uniform(ck.rng, n))
         base.append((n, g))
+    # long member lists (8..14 entries, necessarily with repeats on one qubit): code paths that switch on the size of the collection
+    for _ in range(10 if ck.quick else 50):
+        n = ck.rng.randint(1, 2)
+        base.append((n, [G.uniform(ck.rng, n) for _ in range(ck.rng.randint(8, 14))]))
     # three qubits: the symmetries live on six qubits (dense 64 x 64); a few cases in quick, more in thorough
     base += [(3, g) for _, n, g in G.collections(ck.rng, 8 if ck.quick else 40, 3, 3) if len(g) <= 3][: (3 if ck.quick else 25)]
     for n, g in base:
